@@ -8,7 +8,7 @@ from .ints import (flag, ctype_fields, ctype_wf, is_int_ctype, byte_reader, CT_P
 from .cast import is_cdata, cdata_fields
 from specs import ints as S
 from vf.cfront import line_of
-from vf.cexec import NotSupported
+from vf.cexec import CaseOf, NotSupported
 
 CT_PRIMITIVE_ANY = 0x001 | 0x002 | 0x004 | 0x008 | 0x400
 hash_of_int = z3.Function('hash_of_int', z3.BitVecSort(80), B64)       # Python's hash of an int value (T-API)
@@ -134,12 +134,20 @@ class cdata_richcompare(Contract):
             out.append(("both pointer-like: a %s b exactly as their addresses" % nm,
                         z3.Implies(z3.And(vp, wp, c['op'] == k), c.result == z3.If(addr[k], t, f))))
         ic, ip = OPS(vv, w_c, signed=True), OPS(vv, w_p, signed=True)
+        vsz = ctype_fields(c, st, cdata_fields(c, st, c['v'])[0])[0]
+        wsz = ctype_fields(c, st, cdata_fields(c, st, c['w'])[0])[0]
         for k, nm in enumerate(('<', '<=', '==', '!=', '>', '>=')):
-            # (one clause per operator: the six-way clause took 75-115 s of a 120 s budget)
-            out.append(("integer cdata against integer cdata: a %s b exactly as the Python values they convert to" % nm,
-                        z3.Implies(z3.And(vi, wi, c['op'] == k), c.result == z3.If(ic[k], t, f))))
-            out.append(("integer cdata against a Python int: a %s b exactly as the Python value it converts to" % nm,
-                        z3.Implies(z3.And(vi, wint, c['op'] == k), c.result == z3.If(ip[k], t, f))))
+            # one clause per operator and per pair of operand sizes: the six-way, all-sizes clause took 75-290 s of the
+            # budget; with the sizes fixed each query takes seconds (the case split is exhaustive: sizes are 1, 2, 4, 8)
+            for a in (1, 2, 4, 8):
+                for b in (1, 2, 4, 8):
+                    out.append(("integer cdata (%d bytes) against integer cdata (%d bytes): a %s b exactly as the Python "
+                                "values they convert to" % (a, b, nm),
+                                z3.Implies(z3.And(vi, wi), c.result == z3.If(ic[k], t, f)),
+                                CaseOf([(c['op'], BV(k, 32)), (vsz, BV(a, 64)), (wsz, BV(b, 64))])))
+                out.append(("integer cdata (%d bytes) against a Python int: a %s b exactly as the Python value it converts to"
+                            % (a, nm), z3.Implies(z3.And(vi, wint), c.result == z3.If(ip[k], t, f)),
+                            CaseOf([(c['op'], BV(k, 32)), (vsz, BV(a, 64))])))
         out.append(('pointer-like against anything else: NotImplemented',
                     z3.Implies(z3.Xor(vp, wp), c.result == ni)))
         return out
